@@ -854,6 +854,15 @@ def draw_accounts(world):
             a["brokerid"] = brokerid
         if ch.flag("acct.desc", 0.2):
             a["desc"] = "My account"
+        if ch.flag("acct.flags", 0.35):
+            # optional capabilities the server reports: none of them decides whether a statement is requested
+            a["suptxdl"] = "YN"[ch.pick("acct.suptxdl", 2)]
+            a["xfersrc"] = "NY"[ch.pick("acct.xfersrc", 2)]
+            a["xferdest"] = "NY"[ch.pick("acct.xferdest", 2)]
+            a["checking"] = "NY"[ch.pick("acct.invchecking", 2)]
+            a["product"] = ["OTHER", "401K", "IRA", "NORMAL"][ch.pick("acct.product", 4)]
+            if ch.flag("acct.phone", 0.3):
+                a["phone"] = "+1 555 0100"
         spec.append(a)
     return spec
 
